@@ -411,7 +411,11 @@ func statementFilingRule(P *Program, R *Report) {
 	// helper's own "no error" exits as the accepting ones)
 	var appIns ssa.Instruction = app.Real
 	wfn, wacc := fn, AcceptNilErr(1)
-	if app.Real != nil && app.Real.Parent() != fn {
+	moved := app.Real != nil && app.Real.Parent() != fn && innermostLoopOf(app.Real.Block()) != nil
+	if !moved {
+		appIns = app.Ins // (fn's own append, or a one-line append helper called from fn's walk)
+	}
+	if moved {
 		wfn = app.Real.Parent()
 		res := wfn.Signature.Results()
 		for k := 0; k < res.Len(); k++ {
@@ -450,7 +454,7 @@ func statementFilingRule(P *Program, R *Report) {
 		return okc && desc(callArgs(c)[0]) == "arg#1" && desc(callArgs(c)[1]) == key
 	}}
 	var r mpResult
-	if app.Call != nil && app.Real != nil && app.Real.Parent() != fn {
+	if app.Call != nil && moved {
 		// inside the helper the walk was moved to, with its parameters bound to the constructor's arguments
 		bindCall(app.Call, app.Real.Parent(), func() { r = hidden.MustReach(app.Real.Parent(), app.Real) })
 	} else {
